@@ -44,7 +44,8 @@ Record world := {
   w_plugin_err : option string;        (* get_plugins_types raises PluginImportError(msg) *)
   w_query_files : list gfile;
   w_op_errors : list (string * string);(* (rule class, message) under ALL specified_rules *)
-  w_ops : list opinfo                  (* operation definitions of the queries document, in order *)
+  w_ops : list opinfo;                 (* operation definitions of the queries document, in order *)
+  w_fragments : bool                   (* some fragment definition ends up in the fragments module *)
 }.
 
 (* ---------- loading (schema.py) ---------- *)
@@ -157,7 +158,8 @@ Definition unique_check_names (e : env) (c : csettings) (results : list string) 
 
 (* order of the writes in generate() *)
 Definition write_plan (e : env) (c : csettings) (w : world) (results : list string) : list string :=
-  ([(c_inputs c ++ ".py")%string] ++ results ++ [(c_fragments c ++ ".py")%string]
+  ([(c_inputs c ++ ".py")%string] ++ results
+  ++ (if w_fragments w && negb (String.eqb (c_queries_path c) "") then [(c_fragments c ++ ".py")%string] else [])
   ++ map basename (included_files e c) ++ [basename (c_bc_path c); "base_model.py"]
   ++ (if s_custom_ops (c_base c)
       then ["custom_typing_fields.py"; "custom_fields.py"; "custom_queries.py"; "custom_mutations.py"]
@@ -209,12 +211,9 @@ Definition run_client (e : env) (cfg : json) (w : world) : list effect * outcome
   end.
 
 (* ---------- main.graphql_schema ---------- *)
-(* ast_to_str (black) refuses `class: GraphQLSchema = ...`: a keyword variable name passes the settings
-   and makes the rendering raise before write_text *)
-Definition schema_render (g : gsettings) : option err :=
-  if String.eqb (file_format (g_target g)) "py" && (is_kw (g_schema_var g) || is_kw (g_type_map_var g))
-  then Some (mkerr (Other "InvalidInput") "Cannot parse") else None.
-
+(* Rendering (ast_to_str: black, isort) is not modelled: what it does with a keyword used as a variable
+   name (`class: GraphQLSchema = ...` is refused, `None: GraphQLSchema = ...` is written) is left to the
+   K3 oracle of the finding class F16. *)
 Definition run_schema (e : env) (cfg : json) (w : world) : list effect * outcome :=
   match get_graphql_schema_settings e cfg with
   | Ill => ([], IllCfg)
@@ -230,10 +229,7 @@ Definition run_schema (e : env) (cfg : json) (w : world) : list effect * outcome
               | Some x => (log, Failed PhValidity x)
               | None =>
                   let log2 := (log ++ [EStdout])%list in
-                  match schema_render g with
-                  | Some x => (log2, Failed PhGenerate x)
-                  | None => ((log2 ++ [EWrite (g_target g)])%list, Done)
-                  end
+                  ((log2 ++ [EWrite (g_target g)])%list, Done)
               end
           end
       end
@@ -291,13 +287,14 @@ Definition dRule (e : sexp) : option (string * string) :=
   match e with L [A r; A m] => Some (r, m) | _ => None end.
 Definition dWorld (e : sexp) : option world :=
   match e with
-  | L [sf; sb; rem; se; pe; qf; oe; ops] =>
+  | L [sf; sb; rem; se; pe; qf; oe; ops; fr] =>
       match dList dGfile sf, dBuild sb, dErrO rem, dList dStr se, dOpt dStr pe, dList dGfile qf,
-            dList dRule oe, dList dOp ops with
-      | Some sf', Some sb', Some rem', Some se', Some pe', Some qf', Some oe', Some ops' =>
+            dList dRule oe, dList dOp ops, dB fr with
+      | Some sf', Some sb', Some rem', Some se', Some pe', Some qf', Some oe', Some ops', Some fr' =>
           Some {| w_schema_files := sf'; w_schema_build := sb'; w_remote := rem'; w_schema_errors := se';
-                  w_plugin_err := pe'; w_query_files := qf'; w_op_errors := oe'; w_ops := ops' |}
-      | _, _, _, _, _, _, _, _ => None
+                  w_plugin_err := pe'; w_query_files := qf'; w_op_errors := oe'; w_ops := ops';
+                  w_fragments := fr' |}
+      | _, _, _, _, _, _, _, _, _ => None
       end
   | _ => None
   end.
